@@ -39,6 +39,15 @@ def sweep(world, rep, ts):
     unk = UNKNOWN.get(kind, 987654)
     order = list(get(g.nodes, 'nodes()', None))          # implementation's node order (for the D06 guard)
     pos = {n: i for i, n in enumerate(order)}
+    # ids that are no nodes but are built from nodes: a tuple of two nodes, the text of two string nodes
+    # run together - has_node / get_node_snapshots take ONE id and must not read them as containers
+    unks = [unk]
+    if len(nodes) >= 2:
+        for cand in ((nodes[0], nodes[1]), (nodes[1], nodes[0]), (nodes[-1],)):
+            if cand not in m.nodes:
+                unks.append(cand)
+        if kind is str and nodes[0] and nodes[1] and (nodes[0] + nodes[1]) not in m.nodes:
+            unks.append(nodes[0] + nodes[1])
     nb_forms = [None] + [[n] for n in nodes[:4]]
     if len(nodes) >= 2:
         nb_forms.append(nodes[:len(nodes) // 2] + [unk])
@@ -197,9 +206,10 @@ def sweep(world, rep, ts):
             if bool(hn) != exp_h:
                 raise V('nodes', 'has_node', t, hn, exp_h, {'node': repr(n)})
             n_eval += 6
-        hn = get(lambda: g.has_node(unk, t), 'has_node', t)
-        if hn:
-            raise V('nodes', 'has_node(unknown)', t, hn, False)
+        for uk in unks:
+            hn = get(lambda: g.has_node(uk, t), 'has_node', t)
+            if hn:
+                raise V('nodes', 'has_node(unknown)', t, hn, False, {'node': repr(uk)})
         # ---- node set
         expn = m.nodes_at(t)
         for name, fn in (('nodes', lambda: g.nodes(t=t)), ('dn.nodes', lambda: dn.nodes(g, t)),
@@ -287,6 +297,10 @@ def sweep(world, rep, ts):
             if not ids and got in ([], None):
                 continue
             raise V('nodes', 'get_node_snapshots', None, got, exp, {'node': repr(n)})
+    for uk in unks:
+        got = get(lambda: g.get_node_snapshots(uk), 'get_node_snapshots', None)
+        if got not in ([], None):
+            raise V('nodes', 'get_node_snapshots(unknown)', None, got, [], {'node': repr(uk)})
     return n_eval + 2
 
 
